@@ -390,9 +390,22 @@ class UpdaterModel:
     def initial_state(self, chk):
         """constructor state of the updater: {field: value}, FSM initial state name"""
         fb = self.fb
+        # the updater type: the type of the dispatch loop's parameter the published records are read from; its
+        # constructor: the daemon function returning that type (whatever either is called)
+        upd_ty = None
+        for i in self.infos:
+            for ceb in i['records']:
+                for f in ceb[3]:
+                    x = f
+                    while x[0] == 't' and x[1] in ('field', 'deref'):
+                        x = x[2][0]
+                    if x[0] == 'sym':
+                        for k, nm in self.dispatch.debug_names.items():
+                            if nm == x[1] and 1 <= k <= self.dispatch.argc:
+                                upd_ty = self.dispatch.tystr(self.dispatch.locals[k]['ty']).lstrip('&').replace('mut ', '').strip().split('<')[0]
         ctor = None
         for b in fb.bodies(common.DAEMON):
-            if b.name == 'new' and (b.impl_self or '').split('<')[0].endswith('ShmUpdater'):
+            if b.defkind != 'Closure' and upd_ty and b.tystr(b.locals[0]['ty']).split('<')[0] == upd_ty and b.path != self.dispatch.path:
                 ctor = b
         if ctor is None:
             return None, None, None
